@@ -78,8 +78,9 @@ def dispatch (P : Params) (same : Bool) (un vn : Nat) : Algo :=
     * mpn_toom3_mul_n / sqr_n: `ASSERT(n >= 17)` (toom3_mul_n.c:92, :266)
     * mpn_toom4_mul_n / sqr_n: n ≥ MPN_TOOM4_MUL_N_MINSIZE (gmp-impl.h:1429)
     * mpn_toom8h_mul: toom8h_mul.c ASSERTs, see `toom8hOk`; mpn_toom8_sqr_n: n ≥ MPN_TOOM8_SQR_N_MINSIZE
-    * mpn_toom4_mul: `ASSERT (vn > 3*sn)`, sn = (un+3)/4 (toom4_mul.c:138-143); un ≥ vn
-    * mpn_toom53_mul: `ASSERT (vn > 2*sn)`, sn = (un+4)/5 (toom4_mul.c:324-326); vn ≤ 3*sn (b2 has vn-2sn ≤ sn limbs)
+    * mpn_toom4_mul: `ASSERT (vn > 3*sn)`, sn = (un+3)/4 (toom4_mul.c:138-143); un ≥ vn; h1 = un - 3*sn ≥ 0 (:140, :166)
+    * mpn_toom53_mul: `ASSERT (vn > 2*sn)`, sn = (un+4)/5 (toom4_mul.c:324-326); vn ≤ 3*sn (b2 has vn-2sn ≤ sn limbs);
+      un - 4*sn ≥ 0 (TC4_NORM(a4, a4n, un - 4*sn) at :341 would otherwise produce a negative size)
     * mpn_toom42_mul: `ASSERT(bn > k); ASSERT(bn <= 2*k); ASSERT(an >= 20)`, k = (an+3)/4 (toom3_mul.c:428-431)
     * mpn_toom3_mul: `ASSERT(bn > 2*k); ASSERT(an >= 20)`, k = (an+2)/3 (toom3_mul.c:255-257); an ≥ bn
     * mpn_toom32_mul: `ASSERT(bn > k); ASSERT(an >= 20)`, k = (an+2)/3 (toom3_mul.c:629-631); bn ≤ 2k (r2 ≤ k is needed by :658-666)
@@ -99,8 +100,8 @@ def domainOk (P : Params) (e : Ev) : Bool :=
   | "mpn_toom4_sqr_n", [n] => decide (n ≥ P.MPN_TOOM4_SQR_N_MINSIZE)
   | "mpn_toom8h_mul", [un, vn] => decide (un ≥ vn ∧ vn ≥ 86 ∧ 4 * un ≤ 13 * vn)
   | "mpn_toom8_sqr_n", [n] => decide (n ≥ P.MPN_TOOM8_SQR_N_MINSIZE)
-  | "mpn_toom4_mul", [un, vn] => decide (un ≥ vn ∧ vn > 3 * ((un + 3) / 4))
-  | "mpn_toom53_mul", [un, vn] => decide (un ≥ vn ∧ vn > 2 * ((un + 4) / 5) ∧ vn ≤ 3 * ((un + 4) / 5))
+  | "mpn_toom4_mul", [un, vn] => decide (un ≥ vn ∧ vn > 3 * ((un + 3) / 4) ∧ un ≥ 3 * ((un + 3) / 4))
+  | "mpn_toom53_mul", [un, vn] => decide (un ≥ vn ∧ vn > 2 * ((un + 4) / 5) ∧ vn ≤ 3 * ((un + 4) / 5) ∧ un ≥ 4 * ((un + 4) / 5))
   | "mpn_toom42_mul", [an, bn] => decide (an ≥ 20 ∧ bn > (an + 3) / 4 ∧ bn ≤ 2 * ((an + 3) / 4))
   | "mpn_toom3_mul", [an, bn] => decide (an ≥ 20 ∧ an ≥ bn ∧ bn > 2 * ((an + 2) / 3))
   | "mpn_toom32_mul", [an, bn] => decide (an ≥ 20 ∧ bn > (an + 2) / 3 ∧ bn ≤ 2 * ((an + 2) / 3))
@@ -114,5 +115,42 @@ def domainOk (P : Params) (e : Ev) : Bool :=
   | "ASSERT", [c] => decide (c = 1)
   | "ASSERT_ALWAYS", [c] => decide (c = 1)
   | _, _ => true
+
+/-- What the dispatch code assumes about the tuning constants (each conjunct is used by `mul_dispatch_safe`,
+    `mul_n_dispatch_safe` or `sqr_dispatch_safe`; `params_valid` checks the regenerated values by `decide`):
+    * mul.c:108-110  `tp[MUL_KARATSUBA_THRESHOLD_LIMIT]` holds vn < MUL_KARATSUBA_THRESHOLD limbs;
+      mul.c:112 multiplies a MUL_BASECASE_MAX_UN-limb chunk by vn limbs with the chunk as the longer operand;
+    * mul_n.c:296-298 / :356-358  stack workspaces sized by the *_LIMIT constants;
+    * each algorithm is reached only at or above its threshold, which must be at least its minimum size
+      (kara 2, toom3 17 (and 19 so that the unbalanced Toom-3 family of mul.c:180-208 gets an ≥ 20),
+      toom4 MPN_TOOM4_MUL_N_MINSIZE, toom8h 86, toom8 squaring MPN_TOOM8_SQR_N_MINSIZE). -/
+def Valid (P : Params) : Prop :=
+  2 ≤ P.MUL_KARATSUBA_THRESHOLD ∧ P.MPN_KARA_MUL_N_MINSIZE ≤ P.MUL_KARATSUBA_THRESHOLD ∧
+  P.MUL_KARATSUBA_THRESHOLD ≤ P.MUL_KARATSUBA_THRESHOLD_LIMIT ∧
+  1 ≤ P.MUL_BASECASE_MAX_UN ∧ P.MUL_KARATSUBA_THRESHOLD ≤ P.MUL_BASECASE_MAX_UN + 1 ∧
+  19 ≤ P.MUL_TOOM3_THRESHOLD ∧ P.MUL_TOOM3_THRESHOLD ≤ P.MUL_TOOM3_THRESHOLD_LIMIT ∧
+  15 ≤ P.MUL_TOOM4_THRESHOLD ∧ P.MPN_TOOM4_MUL_N_MINSIZE ≤ P.MUL_TOOM4_THRESHOLD ∧
+  86 ≤ P.MUL_TOOM8H_THRESHOLD ∧ P.MPN_TOOM8H_MUL_MINSIZE ≤ P.MUL_TOOM8H_THRESHOLD ∧
+  2 ≤ P.SQR_KARATSUBA_THRESHOLD ∧ P.MPN_KARA_SQR_N_MINSIZE ≤ P.SQR_KARATSUBA_THRESHOLD ∧
+  17 ≤ P.SQR_TOOM3_THRESHOLD ∧ P.SQR_TOOM3_THRESHOLD ≤ P.SQR_TOOM3_THRESHOLD_LIMIT ∧
+  P.MPN_TOOM4_SQR_N_MINSIZE ≤ P.SQR_TOOM4_THRESHOLD ∧ 1 ≤ P.SQR_TOOM4_THRESHOLD ∧
+  P.MPN_TOOM8_SQR_N_MINSIZE ≤ P.SQR_TOOM8_THRESHOLD ∧ 1 ≤ P.SQR_TOOM8_THRESHOLD ∧
+  0 ≤ P.MUL_FFT_FULL_THRESHOLD ∧ 0 ≤ P.SQR_FFT_FULL_THRESHOLD ∧ 0 ≤ P.SQR_BASECASE_THRESHOLD ∧
+  P.GMP_LIMB_BITS = 64
+
+instance (P : Params) : Decidable (Valid P) := by unfold Valid; infer_instance
+
+/-- every recorded call of a trace is inside its callee's size domain -/
+def AllOk (P : Params) (tr : List Ev) : Prop := ∀ e ∈ tr, domainOk P e = true
+
+/-- the skeleton ran to completion, returned the limb at `prodp + top`, and every call was inside its domain -/
+def Good (P : Params) (top : Int) : Res → Prop
+  | .ret tr (.ptr b off) => b = 1 ∧ off = top ∧ AllOk P tr
+  | _ => False
+
+/-- same for `void` functions -/
+def GoodVoid (P : Params) : Res → Prop
+  | .void tr => AllOk P tr
+  | _ => False
 
 end Mpir.MulDispatch
